@@ -28,7 +28,9 @@ TV      harness `zone hostile`: structured families ($INCLUDE in all 128 case va
         recorded as zone/hostile:hang:<family>[:<TYPE>] and the harness process then ends, skipping its remaining cases);
         $GENERATE widths 3..3000000 with the allocation guard and the spec's verdict (width <= 255); the histories
         next -> rr | err | eof, open(path) of those runs and of a sample of the generated texts are
-        validated by Trace_Zone's sticky-error machine (blocking), and wherever a family text spells
+        validated by Trace_Zone's sticky-error machine (blocking), io-error family: the zone's reader / an included file / a file
+        included at depth 2 / a 3 KiB include fails with an I/O error after k bytes (every k for the small ones), a directory as
+        include target; the injecting wrapper logs `readfail', after which the machine admits only next -> err; and wherever a family text spells
         abstract lines the per-line events are judged by Zone.tla (error due or not, records).
 
 Mutants (checks/mutants/C07/*.diff, run like C06's; exit 1 with seed 1 unless noted):
@@ -41,6 +43,7 @@ Mutants (checks/mutants/C07/*.diff, run like C06's; exit 1 with seed 1 unless no
   lexer-error-not-sticky           zlexer.Next goes on after l.err           prefixes: zone/hostile:hang:prefix:APL (= seeded C07-4: with "(" open at end of input the lexer returns
                                                                              its error token for ever and the APL / SVCB rdata loops never end) -- I had first judged this
                                                                              mutant unobservable; the hang watchdog ends the harness process after reporting
+  seeded C07-7 (I/O error of an included file's reader dropped by subNext)  families io-error: zone/hostile:io-error-lost:include, :nested, :include-big, :directory
   seeded C07-2 (LOC altitude indexes an empty token at end of input)         prefixes: zone/hostile:panic:prefix:LOC
   seeded C07-5 (endingToTxtSlice ignores l.err)                              insertions: zone/hostile:ill-formed-accepted:close:TXT etc.
   seeded C07-6 ($GENERATE width parsed with Atoi)                            families generate-width: zone/hostile:alloc:generate (12 MB for a 60-octet zone); zone/hostile-line:generate:generate-width (spec: width > 255 is an error)
@@ -77,7 +80,10 @@ def validate(ctx, path, what):
         k = j
         while k > 0 and evs[k]["ev"] != "parser":
             k -= 1
-        ctx.candidate(sticky_key(evs[j]), "history rejected by the sticky-error machine at event %d" % tr.rejected_at,
+        key = sticky_key(evs[j])
+        if any(e.get("ev") == "readfail" for e in evs[k:j + 1]):
+            key += ":after-readfail"
+        ctx.candidate(key, "history rejected by the sticky-error machine at event %d" % tr.rejected_at,
                       {"history": evs[k:j + 1][-12:], "family": what})
         with vp._lock:
             ctx.traces += max(0, (tr.hwm or 0))
@@ -144,7 +150,7 @@ def families(ctx, binp):
     out = os.path.join(ctx.out, "families.ndjson")
     s = ctx.run_json(binp, ["hostile", out], timeout=3000)
     vp.absorb(ctx, s)
-    validate(ctx, out, "family")
+    vp.parallel([lambda: validate(ctx, out, "family"), lambda: validate(ctx, out + ".io", "io-error family")])
     return s
 
 
